@@ -225,7 +225,8 @@ def checkTxFeeLimit (maxFee fee : Nat) : Except Err Unit := if maxFee < fee then
     live `Gen.TxBuild.reservationTTLSeconds`, a process restart empties the cache. -/
 abbrev Reserved := List (String × List String)
 
-def holdersOf (r : Reserved) (i : String) : List String := ((r.find? (fun e => e.1 == i)).map (·.2)).getD []
+/-- the drafts holding outpoint `i` (the cache is a map: at most one entry per outpoint) -/
+def holdersOf (r : Reserved) (i : String) : List String := (r.filter (fun e => e.1 == i)).flatMap (·.2)
 
 /-- MarkUsedUTXO(draft): the draft joins the holders of each of its inputs -/
 def markUsed (r : Reserved) (holder : String) (ins : List String) : Reserved :=
@@ -300,5 +301,38 @@ def createCall (s : Session) (q : CreateReq) : Session × Except Err AutoRes :=
 
 /-- a sequence of consecutive create calls within the reservation window -/
 def runCreates (s : Session) (qs : List CreateReq) : Session := qs.foldl (fun s q => (createCall s q).1) s
+
+-- ------------------------------------------------------------------ create calls and releases
+
+/-- a draft handed out by a create call; `outstanding` until it is released (signing it failed) -/
+structure Draft where
+  holder : String
+  ins : List String
+  outstanding : Bool := true
+  deriving Repr, Inhabited
+
+structure RSession where
+  reserved : Reserved := []
+  drafts : List Draft := []
+  deriving Inhabited
+
+inductive ROp
+  | create (q : CreateReq)
+  | release (n : Nat)          -- ClearUsedUTXOMark of the n-th draft handed out (may be repeated: stale retries)
+
+def RSession.step (s : RSession) : ROp → RSession
+  | .create q =>
+    match autoConstruct { coins := eligibleOf s.reserved q.addrs q.view } q.outs q.payloadLen q.userFee q.chgAddr with
+    | .error _ => s
+    | .ok res =>
+      let ids := res.ins.map (·.id)
+      { reserved := markUsed s.reserved q.holder ids, drafts := s.drafts ++ [{ holder := q.holder, ins := ids }] }
+  | .release n =>
+    match s.drafts[n]? with
+    | none => s
+    | some d => { reserved := clearUsed true s.reserved d.holder d.ins,
+                  drafts := s.drafts.set n { d with outstanding := false } }
+
+def RSession.run (s : RSession) (ops : List ROp) : RSession := ops.foldl RSession.step s
 
 end MW.Model.Fee
